@@ -127,6 +127,9 @@ def run_cbmc(cfiles, unwind, timeout, mem_gb=12, checks=True, trace_property=Non
         cmd += ['--pointer-check']
     cmd += defs_flags(defs)
     if trace_property:
+        # the counterexample run keeps the whole formula: slicing drops the nondet values the property does not depend
+        # on, and the native replay needs every verif_nondet_* value in call order
+        cmd = [c for c in cmd if c != '--slice-formula']
         cmd += ['--trace', '--property', trace_property]
     cmd += list(extra)
     r = sh(cmd, timeout=timeout, mem_gb=mem_gb, cwd=wd, register=_register)
